@@ -104,8 +104,13 @@ P_C08_Remainder ==
        LET k == CHOOSE k \in prevs : \A i \in prevs : i <= k
            c == ToldCount(k)
        IN \/ c < 0
-          \/ c >= Len(H[k].parts)          \* everything was recorded: there is no follow-up; a later
-                                          \* transmission of these parts is a complete re-send of the file
+          \* everything was recorded: nothing of it is sent again, unless the receiver has since
+          \* said that the file failed its validation (then the whole file goes out again)
+          \/ (c >= Len(H[k].parts) /\
+               \A i \in DOMAIN H[k].parts, j \in DOMAIN Last.parts :
+                  SameParts(H[k].parts[i], Last.parts[j]) =>
+                     \E v \in (k + 1)..(t - 1) : H[v].op = "validate" /\ Has(H[v].answers, Last.parts[j].name)
+                                                  /\ ~PosAnswer(H[v].answers[Last.parts[j].name]))
           \/ (KF_S6 /\ H[k].n > 0)
           \/ LET tail == SubSeq(H[k].parts, c + 1, Len(H[k].parts))
                  must == SelectSeq(tail, LAMBDA p : ~ChangedSince(p.name, GenStart(t), t))
